@@ -268,11 +268,11 @@ def toyH : Tag → Bytes → Bytes
 def toyRec (v : UInt8) : Rec := ⟨[1], [1, 1, v]⟩
 
 set_option maxRecDepth 8000 in
-theorem toyH_cf : CollisionFreeOn toyH (queriesOf toyH [toyRec 7] ++ queriesOf toyH [toyRec 9]) :=
+theorem merkle_binding_hypothesis_satisfiable : CollisionFreeOn toyH (queriesOf toyH [toyRec 7] ++ queriesOf toyH [toyRec 9]) :=
   ⟨by decide, by intro t m; cases t <;> simp [toyH]⟩
 
 example : rootHash toyH [toyRec 7] ≠ rootHash toyH [toyRec 9] := fun he =>
-  absurd (merkle_binding toyH [toyRec 7] [toyRec 9] toyH_cf (by simp) (by simp) he) (by decide)
+  absurd (merkle_binding toyH [toyRec 7] [toyRec 9] merkle_binding_hypothesis_satisfiable (by simp) (by simp) he) (by decide)
 
 end merkle
 
